@@ -486,6 +486,11 @@ def run(ctx):
             else:
                 r11.ok("%s advances the state machine before every test of the state" % f.qname, "path exploration")
 
+    # ------------------------------------------------------------------ R14
+    from . import C16 as c16
+    r14 = ctx.rule("C04.R14", "btcp in state ready turns every awaited condition into kernel interest, both at once included (= C16.R3's exact folding)")
+    c16.fold_btcp_ready(P, r14, [x for x in tables if x.proto == "btcp"][0])
+
     # ------------------------------------------------------------------ R13
     # attempts that fail at once (unreachable network, unbindable local address) produce no event: no descriptor stays
     # registered, no timer armed.  So the function that starts the attempts also polls their outcome before it returns.
